@@ -378,6 +378,13 @@ def PExpr.declOK : PExpr → Bool
   | .call0 _ _ => true
   | .call _ _ a => declOK a && declHead (a.print ++ [Tok.rp])
 
+/-- the skipDecl side condition of the theorems: nothing to require when the code has the early return for
+variables (`declVarGuard`, commit 1fbcd63: every name the grammar puts behind `(` is a variable), otherwise `declOK` -/
+def declFine (L : Ladder) (e : PExpr) : Bool := L.declVarGuard || e.declOK
+
+/-- the same table with skipDecl as it was before commit 1fbcd63 (no early return for variables) -/
+def Ladder.preFix (L : Ladder) : Ladder := { L with declVarGuard := false }
+
 /-- what may follow a complete expression: nothing, `)`, `]` or `;` -/
 def endOK : List Tok → Bool
   | [] => true
